@@ -102,7 +102,8 @@ class EdgeShuffler:
     order of clock drivers, of the clockables of each driver and of the listeners is
     re-drawn from the schedule PRNG.  Reinstalls itself after resort / restart."""
 
-    def __init__(self, sim, rng, stats, log=None, kinds=('clockables', 'drivers', 'listeners')):
+    def __init__(self, sim, rng, stats, log=None, kinds=('clockables', 'drivers', 'listeners'), first=None):
+        self.first = first          # a clockable that is visited before everything else at every edge (or None)
         self.sim = sim
         self.rng = rng
         self.stats = stats
@@ -127,6 +128,14 @@ class EdgeShuffler:
                         self.rng.shuffle(ds.clockables)
                         self.stats.fault('perm_clockables')
                         sig.append(tuple(o.name for o in ds.clockables[:12]))
+            if self.first is not None:
+                items = list(sim.clockDrivers.items())
+                for i, (drv, ds) in enumerate(items):
+                    if any(o is self.first for o in ds.clockables):
+                        ds.clockables.sort(key=lambda o: 0 if o is self.first else 1)
+                        items.insert(0, items.pop(i))
+                        sim.clockDrivers = dict(items)
+                        break
             if 'listeners' in self.kinds and len(sim.listeners) > 1:
                 self.rng.shuffle(sim.listeners)
                 self.stats.fault('perm_listeners')
